@@ -11,6 +11,7 @@ import (
 	pb "deps.dev/api/v3"
 	pba "deps.dev/api/v3alpha"
 	"google.golang.org/protobuf/reflect/protoreflect"
+	"google.golang.org/protobuf/reflect/protoregistry"
 )
 
 // The Go constants of an enum are not reachable through the descriptor or the
@@ -33,6 +34,28 @@ func TestGoEnumConstants(t *testing.T) {
 		walkEnums = func(prefix string, es protoreflect.EnumDescriptors) {
 			for i := 0; i < es.Len(); i++ {
 				ed := es.Get(i)
+				// a Go enum value describes itself as its own enum: the generated
+				// Descriptor/String methods are bound to one entry of the file's enum
+				// table by index
+				rec.Eval(1)
+				rec.NonTrivial(v.name + "|goenumself|" + string(ed.FullName()))
+				if et, err := protoregistry.GlobalTypes.FindEnumByName(ed.FullName()); err != nil {
+					report(t, check, elemCase{check, string(ed.FullName()), "", ""}, "no Go type registered for the enum", "registered")
+				} else {
+					for j := 0; j < ed.Values().Len(); j++ {
+						vd := ed.Values().Get(j)
+						val := et.New(vd.Number())
+						c := elemCase{check, string(ed.FullName()) + "." + string(vd.Name()), "", ""}
+						if got := val.Descriptor().FullName(); got != ed.FullName() {
+							report(t, check, c, fmt.Sprintf("the Go value of %s describes itself as %s", ed.FullName(), got), "its own enum")
+							break
+						}
+						if got := fmt.Sprint(val); got != string(vd.Name()) {
+							report(t, check, c, fmt.Sprintf("the Go value %d of %s prints as %q", vd.Number(), ed.FullName(), got), "the name of the enum value")
+							break
+						}
+					}
+				}
 				typ := string(ed.Name())
 				scope := typ
 				if prefix != "" {
